@@ -11,12 +11,13 @@
    C12_signed_frag_indep IS proved below (C12_signed_fragmentation_independent, with its one-delivery instance
    C12_signed_decodes_whole_stream): Proofs/ChunkFrag.v shows that the header parser is prefix-monotone, that an incomplete header resumes
    from the stash and left-over data from `left` exactly where a one-piece read would be (read_split, for ALL streams, valid or not), and
-   that on a valid stream no pending header outgrows the stash. The unsigned reader's statement is still evaluated, not proved.
+   that on a valid stream no pending header outgrows the stash. C12_unsigned_frag_indep is proved as C12_unsigned_any_buffers
+   (Proofs/UChunkValid.v: invariant between Reads = the undelivered payload is the stash followed by the chunks still in the stream).
    Proved below, for every state, fragment sequence and buffer-size sequence (no bound on sizes or steps):
    the rejection half in its structural form — the ONLY way either reader reports a clean end of stream is through
    the final zero-length chunk with every integrity value verified; a source that just ends is io.ErrUnexpectedEOF. *)
 From Coq Require Import NArith ZArith List Bool String.
-From VGW Require Import Base.Bytes Crypto.Crc Model.SignedChunk Model.UnsignedChunk Proofs.ChunkAccept Proofs.ChunkFrag.
+From VGW Require Import Base.Bytes Crypto.Crc Model.SignedChunk Model.UnsignedChunk Proofs.ChunkAccept Proofs.ChunkFrag Proofs.UChunkValid.
 Import ListNotations.
 
 Section C12.
@@ -72,6 +73,20 @@ Section C12.
   Proof. exact (read_truncated sha256 hmac256 hex key stsPayload stsTrailer trailer). Qed.
 End C12.
 
+(* the positive half for the unsigned reader, for every payload and chunking: whatever sizes (each at least one byte) the caller's
+   destination buffers have, and however many Reads that takes, the reader returns exactly the payload and a clean end of stream.
+   A chunk is (spelling of its size, data) with non-empty data; the spelling is any line ParseInt accepts after TrimSpace. Premises on
+   the base64 checksum string (no CR, no colon, no surrounding white space) are facts about base64 the proof does not redo.
+   (The model reads from the bytes bufio delivers: how the network fragments them is not the reader's business and is not modelled.) *)
+Theorem C12_unsigned_any_buffers : forall kind a0 total,
+  (~ In 10%N a0 /\ parse_hex (trim (a0 ++ [13; 10]%N)) = Some 0%Z) ->
+  ~ In 13%N (trailer_sum kind total) -> existsb (N.eqb 58) (trailer_sum kind total) = false ->
+  trim (trailer_name kind ++ 58%N :: trailer_sum kind total) = trailer_name kind ++ 58%N :: trailer_sum kind total ->
+  forall cs bufs dflt fuel, Forall uwf_chunk cs -> List.concat (map snd cs) = total ->
+  Forall (fun b => (1 <= b)%nat) bufs -> (1 <= dflt)%nat -> (List.length total < fuel)%nat ->
+  urun kind fuel (uinit (uenc kind a0 total cs)) bufs dflt [] = (total, U_EOF).
+Proof. exact urun_valid_init. Qed.
+
 (* unsigned reader, any destination-buffer schedule: success implies a zero chunk followed by a trailer that names
    this checksum and whose value is the checksum of all payload bytes read *)
 Theorem C12_unsigned_accept_requires_trailer_partial : forall kind fuel s bufs dflt acc out,
@@ -111,6 +126,7 @@ Proof.
   - vm_compute. reflexivity.
 Qed.
 Print Assumptions C12_unsigned_accept_requires_trailer_partial.
+Print Assumptions C12_unsigned_any_buffers.
 
 (* non-vacuity: a concrete valid unsigned stream of two chunks read through 2-byte buffers decodes to its payload *)
 Example C12_unsigned_example :
@@ -132,6 +148,26 @@ Proof.
   - intros x. vm_compute. repeat constructor.
   - repeat constructor; vm_compute; repeat constructor.
   - vm_compute. repeat constructor.
+  - vm_compute. reflexivity.
+  - vm_compute. reflexivity.
+Qed.
+
+
+(* non-vacuity of C12_unsigned_any_buffers: the premises hold for the stream of C12_unsigned_example, which is uenc of its two chunks *)
+Example C12_unsigned_premises :
+  let cs := [(bytes_of_string "3", bytes_of_string "abc"); (bytes_of_string "2", bytes_of_string "de")] in
+  let total := bytes_of_string "abcde" in
+  Forall uwf_chunk cs /\ (~ In 10%N (bytes_of_string "0") /\ parse_hex (trim (bytes_of_string "0" ++ [13; 10]%N)) = Some 0%Z) /\
+  ~ In 13%N (trailer_sum TCrc32 total) /\ existsb (N.eqb 58) (trailer_sum TCrc32 total) = false /\
+  trim (trailer_name TCrc32 ++ 58%N :: trailer_sum TCrc32 total) = trailer_name TCrc32 ++ 58%N :: trailer_sum TCrc32 total /\
+  uenc TCrc32 (bytes_of_string "0") total cs =
+    [51;13;10;97;98;99;13;10;50;13;10;100;101;13;10;48;13;10;120;45;97;109;122;45;99;104;101;99;107;115;117;109;45;99;114;99;51;50;58;104;89;102;89;90;81;61;61;13;10;13;10]%N.
+Proof.
+  cbv zeta. split; [|split; [|split; [|split; [|split]]]].
+  - constructor; [|constructor; [|constructor]]; (split; [intros H; vm_compute in H; intuition discriminate|split; [vm_compute; reflexivity|discriminate]]).
+  - split; [intros H; vm_compute in H; intuition discriminate|vm_compute; reflexivity].
+  - intros H. vm_compute in H. intuition discriminate.
+  - vm_compute. reflexivity.
   - vm_compute. reflexivity.
   - vm_compute. reflexivity.
 Qed.
